@@ -41,6 +41,29 @@ Definition dyn_calls : list pw_site :=
 (* foreign functions assumed to return memory that does not alias their arguments *)
 Definition assumed_fresh : list string := ["os/exec.Command"; "os/exec.CommandContext"].
 
+(* range statements over maps in the front end: (package, file, function, ordinal, text) *)
+Definition map_ranges : list (string * string * string * Z * string) :=
+  [("internal/resolver", "resolve.go", "*ResolvedProgram.IterFuncs", 1%Z, "for name, info := range r.resolver.funcInfo { f(name, info) }");
+   ("internal/resolver", "resolve.go", "*ResolvedProgram.IterVars", 1%Z, "for name, info := range r.resolver.varInfo[funcName] { f(name, info) }");
+   ("internal/resolver", "resolve.go", "Resolve", 1%Z, "for name := range config.Funcs { nativeNames = append(nativeNames, name) }");
+   ("internal/resolver", "resolve.go", "Resolve", 2%Z, "for name := range callGraph.funcs { if _, ok := called[name]; !ok { uncalled = append(uncalled, name) } }");
+   ("internal/resolver", "resolve.go", "Resolve", 3%Z, "for funcName, info := range funcInfo { if info.Native { continue } varInfo[funcName] = make(map[string]VarInfo) for _, param := range info.Params { varInfo[funcName][param] = VarInfo{} } }");
+   ("internal/resolver", "resolve.go", "Resolve", 4%Z, "for _, infos := range r.varInfo { for varName, info := range infos { if info.Type == unknown { infos[varName] = VarInfo{Type: Scalar, Index: info.Index} } } }");
+   ("internal/resolver", "resolve.go", "Resolve", 5%Z, "for varName, info := range infos { if info.Type == unknown { infos[varName] = VarInfo{Type: Scalar, Index: info.Index} } }");
+   ("internal/resolver", "resolve.go", "Resolve", 6%Z, "for funcName, infos := range r.varInfo { var names []string if funcName == """" { for name := range infos { names = append(names, name) } sort.Strings(names) } else { names = r.funcInfo[funcName].Params } scalar := 0 array := 0 for _, name := range names { info := infos[name] if info.Type == Array { infos[name] = VarInfo{Type: info.Type, Index: array} array++ } else { infos[name] = VarInfo{Type: info.Type, Index: scalar} scalar++ } } }");
+   ("internal/resolver", "resolve.go", "Resolve", 7%Z, "for name := range infos { names = append(names, name) }");
+   ("internal/resolver", "resolve.go", "printVarTypes", 1%Z, "for funcName := range varInfo { funcNames = append(funcNames, funcName) }");
+   ("internal/resolver", "resolve.go", "printVarTypes", 2%Z, "for name := range varInfo[funcName] { varNames = append(varNames, name) }");
+   ("internal/resolver", "toposort.go", "topoSort", 1%Z, "for node := range graph { nodes = append(nodes, node) }");
+   ("internal/resolver", "toposort.go", "topoSort", 2%Z, "for m := range graph[n] { successors = append(successors, m) }");
+   ("parser", "parser.go", "*parser.checkMultiExprs", 1%Z, "for _, pos := range p.multiExprs { if pos.Line < min.Line || pos.Line == min.Line && pos.Column < min.Column { min = pos } }")].
+
+(* calls of IterVars / IterFuncs (callbacks run in map order): (package, file, function, ordinal, text) *)
+Definition iter_callers : list (string * string * string * Z * string) :=
+  [("internal/compiler", "compiler.go", "Compile", 1%Z, "resolved.IterVars("""", func(name string, info resolver.VarInfo) { if info.Type == resolver.Array { for len(p.arrayNames) <= info.Index { p.arrayNames = append(p.arrayNames, """") } p.arrayNames[info.Index] = name } else { for len(p.scalarNames) <= info.Index { p.scalarNames = append(p.scalarNames, """") } p.scalarNames[info.Index] = name } })");
+   ("internal/compiler", "compiler.go", "Compile", 2%Z, "resolved.IterFuncs(func(name string, info resolver.FuncInfo) { if !info.Native { return } for len(p.nativeFuncNames) <= info.Index { p.nativeFuncNames = append(p.nativeFuncNames, """") } p.nativeFuncNames[info.Index] = name })");
+   ("interp", "interp.go", "newInterp", 1%Z, "program.IterVars("""", func(name string, info resolver.VarInfo) { if info.Type == resolver.Array { p.arrayIndexes[name] = info.Index } else { p.scalarIndexes[name] = info.Index } })")].
+
 (* package-level variables: (package, name, type, holds references) *)
 Definition pkg_vars : list (string * string * string * bool) :=
   [("interp", "asciiSpace", "[256]uint8", false);
